@@ -2,7 +2,6 @@
 //! Also carries the `llg_par_compute_mask` clause of C14.
 
 use crate::engine::{factory_ext, is_limit_error, mask_words, short_err, GrammarSpec};
-use crate::gen::any_grammar;
 use crate::runner::{Ctx, Prop, Tier, R};
 use crate::util::{frac, truncate_str, Fnv};
 use crate::vocab::{Vocab, VocabSpec};
@@ -152,7 +151,7 @@ impl Prop for C17 {
         tier.pick(120, 1200)
     }
     fn strategy(&self, _tier: Tier) -> BoxedStrategy<Case> {
-        any_grammar()
+        crate::gen::any_grammar_ext()
             .prop_flat_map(|g| {
                 let voc = prop_oneof![
                     3 => syn_vocab_strategy(g.clone(), false),
